@@ -349,7 +349,10 @@ class PowDevice:
                 if b["bros"] > 0:
                     return ("d", bytes([0x80, cmd, OP_BM]))
                 return self.next_block(cmd, OP_META, OP_PARTIAL, OP_SUCCESS)
-            if adv and self.p.ask_brothers:
+            ask = self.p.ask_brothers
+            if isinstance(ask, (list, tuple)):        # per-block policy
+                ask = bool(ask[b["i"] % len(ask)]) if ask else False
+            if adv and ask:
                 return ("d", bytes([0x80, cmd, OP_BLM]))
             return self.next_block(cmd, OP_META, OP_PARTIAL, OP_SUCCESS)
         if op == OP_BLM and adv:
